@@ -717,6 +717,105 @@ func (g *Gen) multi() {
 			return "func(a, v " + K + ") string { x, y := a, v; x, y = y, x; x += y; y, x = x, y; y -= x; return show(x, y) }"
 		}, ints},
 	}
+	// Go's two-phase rule with operands that are NOT of a basic kind: the operands of index expressions, map keys and
+	// pointer indirections on the left (and the map / slice / pointer itself) are evaluated first, then the assignments
+	// are carried out - so when the variable used as key / index holder / container is itself assigned by the same
+	// statement (before or after the element, directly, through a closure, from a multi-valued call), the element
+	// that is stored is the one designated by the OLD value.  Key kinds: struct, array, pointer, interface (the kinds
+	// the interpreter keeps as addressable reflect.Values); K = kind of the components.
+	keyable := []string{"int", "int8", "uint16", "uint64", "string", "bool", "uint8", "float64"}
+	type keyKind struct{ name, decl, T, k0, k1, showk string }
+	keyKinds := func(K string) []keyKind {
+		return []keyKind{
+			{"struct", "type S struct{ A, B " + K + " }; ", "S", "S{a, v}", "S{v, a}", "k.A, k.B"},
+			{"array", "", "[2]" + K, "[2]" + K + "{a, v}", "[2]" + K + "{v, a}", "k[0], k[1]"},
+			{"pointer", "x, y := a, v; ", "*" + K, "&x", "&y", "*k, k == &x, k == &y"},
+			{"interface", "", "interface{}", "interface{}(a)", "interface{}([1]" + K + "{v})", "k == interface{}(a), k == interface{}([1]" + K + "{v})"},
+			{"nested", "type S struct{ A [2]" + K + "; P *" + K + " }; x := a; ", "S", "S{[2]" + K + "{a, v}, &x}", "S{[2]" + K + "{v, a}, nil}", "k.A[0], k.A[1], k.P == &x"},
+		}
+	}
+	for ki := 0; ki < 5; ki++ {
+		ki := ki
+		kkn := keyKinds("int")[ki].name
+		res := func(kk keyKind) string {
+			return "return show(" + kk.showk + ", len(m), m[" + kk.k0 + "], m[" + kk.k1 + "]) }"
+		}
+		pre := func(K string) (keyKind, string) {
+			kk := keyKinds(K)[ki]
+			return kk, "func(a, v " + K + ") string { " + kk.decl + "m := map[" + kk.T + "]string{}; k := " + kk.k0 + "; "
+		}
+		tm = append(tm,
+			tmpl{"key-" + kkn + "-then-elem", func(K, n0, n1 string) string {
+				kk, h := pre(K)
+				return h + "k, m[k] = " + kk.k1 + ", \"x\"; " + res(kk)
+			}, keyable},
+			tmpl{"elem-then-key-" + kkn, func(K, n0, n1 string) string {
+				kk, h := pre(K)
+				return h + "m[k], k = \"x\", " + kk.k1 + "; " + res(kk)
+			}, keyable},
+			tmpl{"key-" + kkn + "-elem-call", func(K, n0, n1 string) string {
+				kk, h := pre(K)
+				return h + "f := func() (" + kk.T + ", string) { return " + kk.k1 + ", \"x\" }; k, m[k] = f(); " + res(kk)
+			}, keyable},
+			tmpl{"key-" + kkn + "-elem-captured", func(K, n0, n1 string) string {
+				kk, h := pre(K)
+				return h + "func() { var d " + K + " = a; _ = d; func() { k, m[k] = " + kk.k1 + ", \"x\" }() }(); " + res(kk)
+			}, keyable},
+			tmpl{"keys-" + kkn + "-rotate", func(K, n0, n1 string) string {
+				kk, h := pre(K)
+				return h + "j := " + kk.k1 + "; j, k, m[k], m[j] = k, j, \"x\", \"y\"; " + "return show(" + kk.showk + ", j == " + kk.k0 + ", len(m), m[" + kk.k0 + "], m[" + kk.k1 + "]) }"
+			}, keyable},
+			tmpl{"map-and-key-" + kkn + "-then-elem", func(K, n0, n1 string) string {
+				kk, h := pre(K)
+				return h + "om, n := m, map[" + kk.T + "]string{}; m, k, m[k] = n, " + kk.k1 + ", \"x\"; " + "return show(" + kk.showk + ", len(m), len(om), len(n), om[" + kk.k0 + "], om[" + kk.k1 + "]) }"
+			}, keyable},
+			tmpl{"opkey-" + kkn + "-elem-then-key", func(K, n0, n1 string) string {
+				kk, h := pre(K)
+				return h + "c := map[" + kk.T + "]int{}; c[k], k = c[k]+1, " + kk.k1 + "; c[k], k = c[k]+5, " + kk.k0 + "; " + "return show(" + kk.showk + ", len(c), c[" + kk.k0 + "], c[" + kk.k1 + "], len(m)) }"
+			}, keyable},
+		)
+	}
+	tm = append(tm,
+		tmpl{"field-key-then-elem", func(K, n0, n1 string) string {
+			return "func(a, v " + K + ") string { type S struct{ A, B " + K + " }; m := map[" + K + "]string{}; k := S{a, v}; k, m[k.A] = S{v, a}, \"x\"; return show(k.A, k.B, len(m), m[a], m[v]) }"
+		}, keyable},
+		tmpl{"elem-then-field-key", func(K, n0, n1 string) string {
+			return "func(a, v " + K + ") string { type S struct{ A, B " + K + " }; m := map[" + K + "]string{}; k := S{a, v}; m[k.A], k = \"x\", S{v, a}; return show(k.A, k.B, len(m), m[a], m[v]) }"
+		}, keyable},
+		tmpl{"array-elem-key-then-elem", func(K, n0, n1 string) string {
+			return "func(a, v " + K + ") string { m := map[" + K + "]string{}; k := [2]" + K + "{a, v}; k, m[k[1]] = [2]" + K + "{v, a}, \"x\"; return show(k[0], k[1], len(m), m[a], m[v]) }"
+		}, keyable},
+		tmpl{"deref-key-then-elem", func(K, n0, n1 string) string {
+			return "func(a, v " + K + ") string { m := map[" + K + "]string{}; x, y := a, v; p := &x; p, m[*p] = &y, \"x\"; return show(*p, len(m), m[a], m[v]) }"
+		}, keyable},
+		tmpl{"struct-index-then-elem", func(K, n0, n1 string) string {
+			return "func(a, v " + K + ") string { type I struct{ N int }; s := []" + K + "{a, a, a}; ix := I{0}; ix, s[ix.N] = I{2}, v; return show(ix.N, s[0], s[1], s[2]) }"
+		}, keyable},
+		tmpl{"elem-then-struct-index", func(K, n0, n1 string) string {
+			return "func(a, v " + K + ") string { type I struct{ N int }; s := []" + K + "{a, a, a}; ix := I{0}; s[ix.N], ix = v, I{2}; return show(ix.N, s[0], s[1], s[2]) }"
+		}, keyable},
+		tmpl{"array-index-then-elem", func(K, n0, n1 string) string {
+			return "func(a, v " + K + ") string { s := []" + K + "{a, a, a}; ia := [1]int{1}; ia, s[ia[0]] = [1]int{2}, v; return show(ia[0], s[0], s[1], s[2]) }"
+		}, keyable},
+		tmpl{"ptr-index-then-elem", func(K, n0, n1 string) string {
+			return "func(a, v " + K + ") string { s := []" + K + "{a, a, a}; i, j := 0, 2; pi := &i; pi, s[*pi] = &j, v; return show(*pi, s[0], s[1], s[2]) }"
+		}, keyable},
+		tmpl{"slice-then-elem", func(K, n0, n1 string) string {
+			return "func(a, v " + K + ") string { s, t := []" + K + "{a, a}, []" + K + "{a, a, a}; os := s; s, s[1] = t, v; return show(len(s), os[0], os[1], t[0], t[1]) }"
+		}, keyable},
+		tmpl{"elem-then-slice", func(K, n0, n1 string) string {
+			return "func(a, v " + K + ") string { s, t := []" + K + "{a, a}, []" + K + "{a, a, a}; os := s; s[1], s = v, t; return show(len(s), os[0], os[1], t[0], t[1]) }"
+		}, keyable},
+		tmpl{"arrayptr-then-elem", func(K, n0, n1 string) string {
+			return "func(a, v " + K + ") string { var x, y [2]" + K + "; p := &x; p, p[1] = &y, v; return show(p == &y, x[0], x[1], y[0], y[1]) }"
+		}, keyable},
+		tmpl{"structval-then-field", func(K, n0, n1 string) string {
+			return "func(a, v " + K + ") string { type S struct{ A, B " + K + " }; s := S{a, a}; ps := &s; s, ps.B = S{v, v}, a; return show(s.A, s.B) }"
+		}, keyable},
+		tmpl{"iface-map-then-elem", func(K, n0, n1 string) string {
+			return "func(a, v " + K + ") string { var k interface{} = a; m := map[interface{}]" + K + "{}; k, m[k] = [1]" + K + "{v}, v; _, ok := m[interface{}(a)]; return show(len(m), ok, m[interface{}(a)], k == interface{}([1]" + K + "{v})) }"
+		}, keyable},
+	)
 	for _, t := range tm {
 		for _, kn := range t.ks {
 			var k *Kind
